@@ -125,6 +125,13 @@ Out run_block_solver(const Req &r) {
         o.opdiff = opdiff(S.system_matrix(), *r.A);
         o.x = r.x0;
         if (r.form == 0) std::tie(o.iters, o.resid) = S(r.f, o.x); else std::tie(o.iters, o.resid) = S(At, r.f, o.x);
+        if (r.form == 1 && r.maxiter > 2) {
+            // the user updates the coefficients of the SAME matrix object and solves again (time stepping)
+            for (int i = 0; i < a.n; ++i) for (ptrdiff_t j = a.ptr[i]; j < a.ptr[i + 1]; ++j) if (a.col[j] == i) a.val[j] *= 1.25;
+            o.x2 = r.x0;
+            std::tie(o.iters2, o.resid2) = S(At, r.f, o.x2);
+            o.second = true;
+        }
     });
 }
 #if !C13_EIGEN
